@@ -3,6 +3,7 @@ module github.com/dolthub/go-mysql-server/verifharness
 go 1.26.2
 
 require (
+	github.com/cockroachdb/apd/v3 v3.2.3
 	github.com/dolthub/go-mysql-server v0.0.0
 	github.com/dolthub/vitess v0.0.0-20260819175407-19559ab533b7
 	github.com/go-sql-driver/mysql v1.9.3
@@ -13,7 +14,6 @@ require (
 require (
 	filippo.io/edwards25519 v1.1.1 // indirect
 	github.com/cespare/xxhash/v2 v2.3.0 // indirect
-	github.com/cockroachdb/apd/v3 v3.2.3 // indirect
 	github.com/dolthub/flatbuffers/v23 v23.3.3-dh.2 // indirect
 	github.com/dolthub/go-icu-regex v0.0.0-20260610153742-72563bc7ca83 // indirect
 	github.com/dolthub/jsonpath v0.0.2-0.20260807003725-336cd89c1c76 // indirect
